@@ -501,3 +501,173 @@ def rule_t2(ctx):
             "list of ints gives int64, the float entries written into the "
             "array afterwards are truncated and inverse / eigenvalue "
             "routines fail or return garbage", instance="check_type")
+
+
+# ---------------------------------------------------------------------------
+# T3: float results are never written into a caller-typed buffer
+# LK1: a `like=`-typed buffer that receives computed values is inexact
+
+FACTORIES = {"utils.zeros", "utils.ones", "zeros", "ones", "utils.identity",
+             "identity"}
+_INT_GUARD_WORDS = ("issubdtype", "np.integer", ".dtype.kind", "inexact",
+                    "np.floating", "is_integer")
+
+
+def _has_int_guard(f, name):
+    """an `if` testing the dtype of `name` for integer-ness whose body
+    rebinds `name` to a re-typed array"""
+    for n in ast.walk(f.node):
+        if not isinstance(n, ast.If):
+            continue
+        t = dotted(n.test)
+        if name in t and any(w in t for w in _INT_GUARD_WORDS):
+            for b in n.body:
+                for x in ast.walk(b):
+                    if isinstance(x, ast.Assign) and any(
+                            dotted(tg) == name for tg in x.targets) and (
+                            "astype" in dotted(x.value)
+                            or "dtype=" in dotted(x.value)):
+                        return True
+    return False
+
+
+def rule_t3(ctx, rels):
+    r = ctx.r
+    r.rule("T3", "a true division is never written in place into an array "
+                 "whose dtype is the caller's (`x /= d`, "
+                 "`np.divide(x, d, out=x)` with x a parameter) unless an "
+                 "integer-dtype test re-types x first: integer-typed input "
+                 "(a list of Python ints) makes NumPy raise "
+                 "UFuncTypeError, i.e. the result depends on how the same "
+                 "numbers were packaged")
+    n_sites = 0
+    for rel in rels:
+        m = ctx.p.module_by_rel(rel)
+        for f in ctx.p.all_functions:
+            if f.module is not m:
+                continue
+            params = set(f.params)
+            for n in ast.walk(f.node):
+                tgt = None
+                if isinstance(n, ast.AugAssign) and isinstance(
+                        n.op, ast.Div) and isinstance(n.target, ast.Name):
+                    tgt = n.target.id
+                if isinstance(n, ast.Call) and dotted(n.func) in (
+                        "np.divide", "np.true_divide"):
+                    for k in n.keywords:
+                        if k.arg == "out" and isinstance(k.value, ast.Name):
+                            tgt = k.value.id
+                if tgt is None or tgt not in params:
+                    continue
+                # is the parameter rebound to a fresh inexact array first?
+                rebound = any(
+                    isinstance(x, ast.Assign) and any(
+                        dotted(t) == tgt for t in x.targets)
+                    and x.lineno < n.lineno
+                    and ("dtype=" in dotted(x.value)
+                         or "astype" in dotted(x.value))
+                    for x in ast.walk(f.node))
+                n_sites += 1
+                r.analysed(f)
+                inst = f"{f.qualname}:{tgt}"
+                if rebound or _has_int_guard(f, tgt):
+                    r.ok("T3", inst, loc(f, n), dotted(n)[:100],
+                         "the buffer is re-typed before the in-place "
+                         "division")
+                else:
+                    r.violation(
+                        "T3", f"{f.fq}|inplace-div:{tgt}", loc(f, n),
+                        dotted(n)[:140],
+                        f"`{tgt}` is a parameter and receives a true "
+                        "division in place: for integer-typed data "
+                        "(Point([0, 0], model=Model.KLEIN), "
+                        "Point(np.array([1, 0, 0]))) NumPy raises "
+                        "UFuncTypeError in distance / origin_to / "
+                        "hyperboloid coordinates, while the same numbers "
+                        "as floats work", instance=inst)
+    return n_sites
+
+
+def rule_lk1(ctx, rels):
+    r = ctx.r
+    r.rule("LK1", "a buffer created by utils.zeros / utils.ones with "
+                  "`like=L` takes L's dtype; if computed values (a call or "
+                  "a division) are item-assigned into it, the factory must "
+                  "be told integer_type=False, otherwise integer-typed L "
+                  "truncates them silently; values that are L itself, a "
+                  "factory result `like=L`, or a literal are fine")
+    n_sites = 0
+    for rel in rels:
+        m = ctx.p.module_by_rel(rel)
+        for f in ctx.p.all_functions:
+            if f.module is not m:
+                continue
+            bufs = {}
+            likedefs = set()
+            for n in ast.walk(f.node):
+                if isinstance(n, ast.Assign) and len(n.targets) == 1 \
+                        and isinstance(n.targets[0], ast.Name) \
+                        and isinstance(n.value, ast.Call):
+                    fn = dotted(n.value.func)
+                    kw = {k.arg: k.value for k in n.value.keywords if k.arg}
+                    if fn in FACTORIES and "like" in kw:
+                        it = kw.get("integer_type")
+                        exact_ok = isinstance(it, ast.Constant) \
+                            and it.value is False
+                        if fn.split(".")[-1] in ("zeros", "ones"):
+                            bufs[n.targets[0].id] = (n, dotted(kw["like"]),
+                                                     exact_ok, "dtype" in kw)
+                    if fn.startswith("utils.") and "like" in kw:
+                        likedefs.add((n.targets[0].id, dotted(kw["like"])))
+            for n in ast.walk(f.node):
+                if not isinstance(n, ast.Assign):
+                    continue
+                for t in n.targets:
+                    if not (isinstance(t, ast.Subscript)
+                            and isinstance(t.value, ast.Name)
+                            and t.value.id in bufs):
+                        continue
+                    d, like, exact_ok, has_dtype = bufs[t.value.id]
+                    v = n.value
+                    safe = isinstance(v, ast.Constant) or dotted(v) == like \
+                        or (isinstance(v, ast.Name)
+                            and (v.id, like) in likedefs)
+                    if isinstance(v, ast.UnaryOp) and isinstance(
+                            v.operand, ast.Constant):
+                        safe = True
+                    if isinstance(v, ast.Call) and any(
+                            k.arg == "like" and dotted(k.value) == like
+                            for k in v.keywords):
+                        safe = True          # typed like the same source
+                    if isinstance(v, ast.Name) and any(
+                            isinstance(x, ast.Assign)
+                            and dotted(x.targets[0]) == like
+                            and (dotted(x.value) == v.id or (
+                                isinstance(x.value, ast.IfExp) and v.id in (
+                                    dotted(x.value.body),
+                                    dotted(x.value.orelse))))
+                            for x in ast.walk(f.node)):
+                        safe = True          # `like = v` (default source)
+                    computed = any(isinstance(x, ast.Call) or (
+                        isinstance(x, ast.BinOp)
+                        and isinstance(x.op, ast.Div)) for x in ast.walk(v)) \
+                        or isinstance(v, ast.Name)
+                    if safe or not computed:
+                        continue
+                    n_sites += 1
+                    r.analysed(f)
+                    inst = f"{f.qualname}:{t.value.id}"
+                    if exact_ok or has_dtype:
+                        r.ok("LK1", inst, loc(f, n), norm_stmt(n)[:100],
+                             "the buffer is created inexact")
+                    else:
+                        r.violation(
+                            "LK1", f"{f.fq}|{t.value.id}", loc(f, d),
+                            norm_stmt(d)[:140],
+                            f"`{t.value.id}` takes the dtype of `{like}` and "
+                            f"then receives `{dotted(v)[:50]}`: for "
+                            "integer-typed data the computed values are "
+                            "truncated silently (e.g. TangentVector(int "
+                            "array).point_along(0.5) returns the basepoint)",
+                            instance=inst)
+    return n_sites
